@@ -9,8 +9,10 @@ OS = "dulwich/object_store.py"
 ANY = "BaseException"
 
 class_spec(file="<abstract>", cls="MidxStoreAbs", fields={})
+class_spec(file="<abstract>", cls="PackAbs14", fields={})
+class_spec(file="<abstract>", cls="PackStoreParentAbs14", fields={})
 contract(prop=["C14"], file="<abstract>", func="DiskObjectStore._get_pack_by_name@ghost", trusted=True,
-         params={"self": "obj:MidxStoreAbs", "pack_name": "opaque"}, returns="opaque", raises={"KeyError": None, ANY: None},
+         params={"self": "obj:MidxStoreAbs", "pack_name": "opaque"}, returns="obj:PackAbs14", raises={"KeyError": None, ANY: None},
          ensures=["upred('pack_alive', pack_name)"],
          note="ghost marker: returns only when the named pack exists (the body is a cache lookup plus os.path.exists)")
 contract(
@@ -20,4 +22,25 @@ contract(
              "callee_contracts": {"MidxStoreAbs._get_pack_by_name": ("<abstract>", "DiskObjectStore._get_pack_by_name@ghost")},
              "asserts": [("midx-hit-needs-live-pack", "=return True", ["upred('pack_alive', result[0])"])]},
     note="`return True` is the MIDX arm; the per-pack fallback (super().contains_packed) reads the pack indexes themselves",
+)
+
+
+# ---- get_raw: whatever is returned was looked up in a pack's OWN index (Pack.get_raw) or by the accelerator-free parent class;
+# the offset recorded in the multi-pack-index is never used to read the pack (a stale MIDX may name a pack that was rewritten
+# under the same name with another layout)
+contract(prop=["C14"], file="<abstract>", func="PackAbs14.get_raw@ghost", trusted=True, params={"self": "obj:PackAbs14", "sha1": "opaque"},
+         returns="opaque", raises={"KeyError": None, ANY: None}, ensures=["upred('authoritative', result)"],
+         note="Pack.get_raw looks the id up in the pack's own index and resolves deltas: the authoritative read")
+contract(prop=["C14"], file="<abstract>", func="PackStoreParentAbs14.get_raw@ghost", trusted=True, params={"self": "obj:PackStoreParentAbs14", "name": "opaque"},
+         returns="opaque", raises={"KeyError": None, ANY: None}, ensures=["upred('authoritative', result)"],
+         note="PackBasedObjectStore.get_raw: per-pack index lookups and loose objects, no accelerator involved")
+contract(
+    prop=["C14"], file=OS, func="DiskObjectStore.get_raw",
+    params={"self": "obj:MidxStoreAbs", "name": "bytes"}, returns="opaque", raises={ANY: None},
+    ensures=["upred('authoritative', result)"],
+    options={"default_param": "opaque", "super_obj": "PackStoreParentAbs14",
+             "callee_contracts": {"MidxStoreAbs._get_pack_by_name": ("<abstract>", "DiskObjectStore._get_pack_by_name@ghost"),
+                                  "PackAbs14.get_raw": ("<abstract>", "PackAbs14.get_raw@ghost"),
+                                  "PackStoreParentAbs14.get_raw": ("<abstract>", "PackStoreParentAbs14.get_raw@ghost")},
+             "asserts": [("midx-hit-needs-live-pack", "=return pack.get_raw(sha)", ["upred('pack_alive', pack_name)"])]},
 )
